@@ -723,5 +723,19 @@ pub fn layout_suites(thorough: bool) -> Vec<Suite> {
     for format in [1, 2, 3] {
         v.push(crash_suite(&format!("layout-edge-v{format}"), disk(format, true, false), edge_tables(), edge_ops(), d(4, 6)));
     }
+    // the "never 0" rule of the v3 token: the first record of a fresh device (block 16)
+    // gets a value whose raw token fold is 0 / 1 / 0xffff
+    {
+        static VALUES: std::sync::OnceLock<Vec<Vec<u8>>> = std::sync::OnceLock::new();
+        let values = VALUES.get_or_init(|| [0u16, 1, 0xffff].iter().map(|t| crate::layoutref::value_with_raw_fold(b"a", ZF_TS, 0, 16, 40, *t)).collect());
+        let mut t = std_tables();
+        let base = t.values.len() as u8;
+        t.values.extend(values.iter().cloned());
+        let ops = vec![ins_ts(0, base, ZF_TS), ins_ts(0, base + 1, ZF_TS), ins_ts(0, base + 2, ZF_TS), Op::Flush, Op::Reopen, Op::Get(0)];
+        v.push(crash_suite("layout-token-fold-v3", disk(3, true, false), t, ops, 4));
+    }
     v
 }
+
+/// Explicit timestamp of the token-fold records (fixed, so that the searched values stay valid).
+pub const ZF_TS: u64 = crate::sut::T0 + 77;
